@@ -36,14 +36,14 @@ type Closure struct {
 
 // Addr is the Go-side description of an address-valued SSA value.
 type Addr struct {
-	Ref     Term        // Ref term for the address
-	Elem    types.Type  // pointee type
-	IsField bool        // direct scalar field of a struct object in field mode
-	Parent  Term        // struct object ref (IsField)
-	SKey    string      // struct type key
-	Field   int         // field index
-	Local   *LocalVar   // rooted at a non-escaping local
-	Path    []pathStep  // path inside the local
+	Ref     Term       // Ref term for the address
+	Elem    types.Type // pointee type
+	IsField bool       // direct scalar field of a struct object in field mode
+	Parent  Term       // struct object ref (IsField)
+	SKey    string     // struct type key
+	Field   int        // field index
+	Local   *LocalVar  // rooted at a non-escaping local
+	Path    []pathStep // path inside the local
 }
 
 type pathStep struct {
@@ -84,36 +84,37 @@ type Frame struct {
 }
 
 type Exec struct {
-	g       *Global
-	vc      *VC
-	te      *TypeEnv
-	initKey map[string]Term
-	keySort map[string]Sort
-	nLoc    int
-	nInst   int
-	root    *ssa.Function
-	fc      *FuncContract
-	fnID    string
-	safety  map[string]bool
-	props   []string
-	nSafety map[string]int
-	outside []string // unsupported constructs encountered
-	assumed map[string]bool
-	inlined map[string]bool
-	calls   map[string]bool // contracts used at call sites
-	rootFrame *Frame
-	ufunUsed  map[string]bool
-	ufunDecl  []string
-	lemmasUsed map[string]bool
-	nReturns   int
+	initGlobals      map[*ssa.Global]Term
+	g                *Global
+	vc               *VC
+	te               *TypeEnv
+	initKey          map[string]Term
+	keySort          map[string]Sort
+	nLoc             int
+	nInst            int
+	root             *ssa.Function
+	fc               *FuncContract
+	fnID             string
+	safety           map[string]bool
+	props            []string
+	nSafety          map[string]int
+	outside          []string // unsupported constructs encountered
+	assumed          map[string]bool
+	inlined          map[string]bool
+	calls            map[string]bool // contracts used at call sites
+	rootFrame        *Frame
+	ufunUsed         map[string]bool
+	ufunDecl         []string
+	lemmasUsed       map[string]bool
+	nReturns         int
 	callbackModelled bool
 	dynSort          map[string]Sort
 	nLazy            int
 	lazyHavoc        map[string]Term
-	recActive map[*Pred]bool
-	recInst   map[string]*recInstance
-	readLog   map[string]Term
-	curClo    *Closure // closure value of the call being specified (callContract)
+	recActive        map[*Pred]bool
+	recInst          map[string]*recInstance
+	readLog          map[string]Term
+	curClo           *Closure // closure value of the call being specified (callContract)
 }
 
 func (ex *Exec) unsupported(what string) {
@@ -131,7 +132,7 @@ func (ex *Exec) outsideSubset(why string) {
 // ---------- state keys ----------
 
 func fieldKey(skey string, i int) string { return fmt.Sprintf("F|%s|%d", skey, i) }
-func cellKey(t types.Type) string       { return "C|" + typeKey(t.Underlying()) }
+func cellKey(t types.Type) string        { return "C|" + typeKey(t.Underlying()) }
 
 func (ex *Exec) keyInit(k string, so Sort) Term {
 	if t, ok := ex.initKey[k]; ok {
@@ -751,10 +752,10 @@ type loopInfo struct {
 }
 
 type cfgInfo struct {
-	order   []*ssa.BasicBlock
-	loops   map[*ssa.BasicBlock]*loopInfo
-	isBack  map[[2]int]bool
-	reach   map[*ssa.BasicBlock]bool
+	order  []*ssa.BasicBlock
+	loops  map[*ssa.BasicBlock]*loopInfo
+	isBack map[[2]int]bool
+	reach  map[*ssa.BasicBlock]bool
 }
 
 var cfgCache = map[*ssa.Function]*cfgInfo{}
@@ -1082,4 +1083,32 @@ func posOf(fn *ssa.Function, p token.Pos) string {
 	}
 	pp := fn.Prog.Fset.Position(p)
 	return fmt.Sprintf("%s:%d", strings.TrimPrefix(pp.Filename, "/repo/"), pp.Line)
+}
+
+// initGlobalValue: the value of an interface-typed package variable that is assigned exactly
+// once, in its package initialiser (io.EOF and its kind). It is a constant of the program: no
+// call can change it, it is not nil, and two such variables made by separate errors.New /
+// fmt.Errorf calls hold different values (each is a pointer to its own allocation).
+func (ex *Exec) initGlobalValue(gv *ssa.Global) (Term, bool) {
+	if !ex.g.initNonNil(gv) {
+		return Term{}, false
+	}
+	if ex.initGlobals == nil {
+		ex.initGlobals = map[*ssa.Global]Term{}
+	}
+	if t, ok := ex.initGlobals[gv]; ok {
+		return t, true
+	}
+	t := ex.vc.fresh(fmt.Sprintf("ginit_%d", ex.g.globalID(gv)), SIface)
+	ex.vc.assume(tTrue, not(eq(app(SInt, "itag", t), intLit(0))), "package-level error value set once at init")
+	if ex.g.freshErr[gv] {
+		for other, ot := range ex.initGlobals {
+			if ex.g.freshErr[other] {
+				ex.vc.assume(tTrue, not(eq(t, ot)), "error values made by separate errors.New calls at init are different")
+			}
+		}
+	}
+	ex.initGlobals[gv] = t
+	ex.assumed["package-level error variables that are assigned once, in their package initialiser, are constants (io.EOF and its kind)"] = true
+	return t, true
 }
